@@ -588,3 +588,114 @@ Proof.
   unfold in_range in Hr. apply negb_true_iff in Hr. apply orb_false_elim in Hr. destruct Hr as [H1 H2].
   apply Z.ltb_ge in H1. apply Z.ltb_ge in H2. unfold col_of, cols_of in *. lia.
 Qed.
+
+(** * The converse: notes on the frame grid -> roll -> notes *)
+Lemma maximal_run_unique (f : Z -> bool) a b a' b' i :
+  maximal_run f a b -> maximal_run f a' b' -> a <= i < b -> a' <= i < b' -> a = a' /\ b = b'.
+Proof.
+  intros (H1 & H2 & H3 & H4) (H1' & H2' & H3' & H4') Hi Hi'.
+  split.
+  - destruct (Z.lt_trichotomy a a') as [Hlt|[Heq|Hgt]]; [|assumption|].
+    + rewrite (H3 (a' - 1)) in H2' by lia. discriminate.
+    + rewrite (H3' (a - 1)) in H2 by lia. discriminate.
+  - destruct (Z.lt_trichotomy b b') as [Hlt|[Heq|Hgt]]; [|assumption|].
+    + rewrite (H3' b) in H4 by lia. discriminate.
+    + rewrite (H3 b') in H4' by lia. discriminate.
+Qed.
+
+Definition grid_note (fps : flt) (mn : Z) (sp : Z * Z * Z) : snote :=
+  snote_of DEFAULT_DECODE_VELOCITY (mk_dnote fps mn sp).
+
+Theorem grid_converse_proof fps total mn P (N : list (Z * Z * Z)) :
+  let c := grid_cfg fps total mn (Z.of_nat P) in
+  0 < rows_of c ->
+  (forall p a b, In (p, a, b) N ->
+     0 <= p < Z.of_nat P /\ 0 <= a < b /\ b <= rows_of c /\ frame_exact fps a = true /\ frame_exact fps b = true) ->
+  (forall p a b a' b', In (p, a, b) N -> In (p, a', b') N -> (a = a' /\ b = b') \/ b < a' \/ b' < a) ->
+  forall p a b,
+    In (p, a, b) (decode_spans (active_roll c (map (grid_note fps mn) N)) None None) <-> In (p, a, b) N.
+Proof.
+  intros c Hrows HN Hsep.
+  set (notes := map (grid_note fps mn) N).
+  set (R := active_roll c notes).
+  assert (Hcols : cols_of c = Z.of_nat P) by (unfold cols_of, c; cbn; lia).
+  assert (Hfr : forall p a b, In (p, a, b) N ->
+            sframe fps (ftime fps a) = a /\ eframe fps (ftime fps b) = b).
+  { intros p a b Hin. destruct (HN p a b Hin) as (_ & _ & _ & Ha & Hb).
+    unfold frame_exact in Ha, Hb. apply andb_prop in Ha. apply andb_prop in Hb.
+    destruct Ha as [Ha _]. destruct Hb as [_ Hb]. apply Z.eqb_eq in Ha. apply Z.eqb_eq in Hb. auto. }
+  assert (Hinr : forall sp, In sp N -> in_range c (grid_note fps mn sp) = true).
+  { intros [[p a] b] Hin. destruct (HN p a b Hin) as (Hp & _).
+    unfold in_range, c, grid_note. cbn.
+    destruct (p + mn <? mn) eqn:E1; [apply Z.ltb_lt in E1; lia|].
+    destruct (mn + Z.of_nat P - 1 <? p + mn) eqn:E2; [apply Z.ltb_lt in E2; lia|]. reflexivity. }
+  assert (Hnonneg : forall n, In n notes -> in_range c n = true -> 0 <= sframe (c_fps c) (n_start n)).
+  { intros n Hn _. unfold notes in Hn. apply in_map_iff in Hn. destruct Hn as ([[p a] b] & <- & Hin).
+    destruct (Hfr p a b Hin) as [Ha _]. destruct (HN p a b Hin) as (_ & Hab & _).
+    unfold grid_note, c. cbn. change (fz a * (1 / fps))%float with (ftime fps a). lia. }
+  assert (Hcell : forall i q, mget R i q = true <-> exists a b, In (q, a, b) N /\ a <= i < b).
+  { intros i q.
+    destruct (Z_lt_ge_dec i 0) as [Hi|Hi].
+    { split.
+      - unfold mget. destruct (i <? 0) eqn:E; [discriminate|apply Z.ltb_ge in E; lia].
+      - intros (a & b & Hin & Hab). destruct (HN q a b Hin) as (_ & Ha & _). lia. }
+    destruct (Z_lt_ge_dec q 0) as [Hq|Hq].
+    { split.
+      - unfold mget. destruct (q <? 0) eqn:E; [rewrite orb_true_r; discriminate|apply Z.ltb_ge in E; lia].
+      - intros (a & b & Hin & Hab). destruct (HN q a b Hin) as (Hq' & _). lia. }
+    unfold R. rewrite (active_frames_proof c notes eq_refl eq_refl gt0_zero) by (try assumption; lia).
+    split.
+    - intros (_ & n & Hn & _ & Hqn & Hspan).
+      unfold notes in Hn. apply in_map_iff in Hn. destruct Hn as ([[p a] b] & <- & Hin).
+      destruct (Hfr p a b Hin) as [Ha Hb]. destruct (HN p a b Hin) as (_ & Hab & _).
+      unfold grid_note, c in Hqn, Hspan. cbn in Hqn, Hspan.
+      change (fz a * (1 / fps))%float with (ftime fps a) in Hspan.
+      change (fz b * (1 / fps))%float with (ftime fps b) in Hspan.
+      rewrite Ha, Hb in Hspan.
+      exists a, b. replace q with p by lia. split; [assumption|lia].
+    - intros (a & b & Hin & Hab).
+      destruct (Hfr q a b Hin) as [Ha Hb]. destruct (HN q a b Hin) as (_ & Hab' & Hbr & _).
+      split; [lia|]. exists (grid_note fps mn (q, a, b)).
+      split; [unfold notes; apply in_map; assumption|]. split; [apply Hinr; assumption|].
+      unfold grid_note, c. cbn.
+      change (fz a * (1 / fps))%float with (ftime fps a). change (fz b * (1 / fps))%float with (ftime fps b).
+      rewrite Ha, Hb. split; lia. }
+  assert (HRrect : rect R (Z.to_nat (rows_of c)) P).
+  { pose proof (active_roll_shape_proof c notes eq_refl eq_refl gt0_zero ltac:(lia) ltac:(lia) Hnonneg) as H.
+    fold (rows_of c) in H. fold (cols_of c) in H. rewrite Hcols, Nat2Z.id in H. exact H. }
+  assert (HA : forall p a b, In (p, a, b) N -> maximal_run (fun i => mget R i p) a b).
+  { intros p a b Hin. destruct (HN p a b Hin) as (_ & Hab & _).
+    split; [lia|]. split; [|split].
+    - destruct (mget R (a - 1) p) eqn:E; [|reflexivity].
+      apply Hcell in E. destruct E as (a' & b' & Hin' & Hab').
+      destruct (Hsep p a b a' b' Hin Hin') as [[? ?]|[?|?]]; lia.
+    - intros j Hj. apply Hcell. exists a, b. split; assumption.
+    - destruct (mget R b p) eqn:E; [|reflexivity].
+      apply Hcell in E. destruct E as (a' & b' & Hin' & Hab').
+      destruct (HN p a' b' Hin') as (_ & Hab'' & _).
+      destruct (Hsep p a b a' b' Hin Hin') as [[? ?]|[?|?]]; lia. }
+  intros p a b.
+  rewrite (runs_decoded_plain_proof R (Z.to_nat (rows_of c)) P ltac:(lia) HRrect p a b).
+  split.
+  - intros (Hp & Hrun).
+    assert (Hfa : mget R a p = true) by (destruct Hrun as (H1 & _ & H3 & _); apply H3; lia).
+    apply Hcell in Hfa. destruct Hfa as (a' & b' & Hin' & Hab').
+    destruct (maximal_run_unique _ a b a' b' a Hrun (HA p a' b' Hin')) as [-> ->];
+      [destruct Hrun as (H1 & _); lia|assumption|assumption].
+  - intros Hin. split; [apply (HN p a b Hin)|apply HA; assumption].
+Qed.
+
+Theorem grid_converse_pow2_proof fps k total mn P (N : list (Z * Z * Z)) :
+  fin fps -> R_of fps = Raux.bpow Zaux.radix2 k -> -64 <= k <= 64 ->
+  let c := grid_cfg fps total mn (Z.of_nat P) in
+  0 < rows_of c < 2 ^ 53 ->
+  (forall p a b, In (p, a, b) N -> 0 <= p < Z.of_nat P /\ 0 <= a < b /\ b <= rows_of c) ->
+  (forall p a b a' b', In (p, a, b) N -> In (p, a', b') N -> (a = a' /\ b = b') \/ b < a' \/ b' < a) ->
+  forall p a b,
+    In (p, a, b) (decode_spans (active_roll c (map (grid_note fps mn) N)) None None) <-> In (p, a, b) N.
+Proof.
+  intros Ffps Rfps Hk c Hrows HN Hsep. apply grid_converse_proof; [lia| |assumption].
+  intros p a b Hin. destruct (HN p a b Hin) as (Hp & Hab & Hb).
+  split; [assumption|]. split; [assumption|]. split; [assumption|].
+  unfold c in *. split; apply (frame_exact_pow2 fps k Ffps Rfps Hk); lia.
+Qed.
